@@ -84,6 +84,12 @@ impl Pool {
             m.info = (0..cars).map(|_| insim::insim::CompCar::default()).collect();
             all.push(Packet::Mci(m));
         }
+        // ... and a frame of exactly the compressed maximum (1020 bytes: IS_PLH with 254 entries)
+        {
+            let mut h = insim::insim::Plh::default();
+            h.hcaps = (0..254).map(|_| Default::default()).collect();
+            all.push(Packet::Plh(h));
+        }
         for p in all {
             if matches!(p, Packet::Ver(_)) {
                 continue; // version packets belong to classes ver9/verX
@@ -93,11 +99,8 @@ impl Pool {
                     continue;
                 }
                 f[2] = 1; // request id 1: never a keep-alive
-                if let (Verdict::Pkt { consumed, .. }, _) = standalone(mode, &f) {
-                    if consumed == f.len() {
-                        by_len.entry(f.len()).or_default().push(f);
-                    }
-                }
+                // (not filtered by what the decoder under test makes of them: the encoder built them from typed packets)
+                by_len.entry(f.len()).or_default().push(f);
             }
         }
         Pool { mode: mode.to_string(), by_len }
